@@ -118,6 +118,43 @@ PROPS = {
                      'user alphabets: total dictionaries over the 20 residues with one-character values are covered by proof; missing keys, non-dict and multi-character values by the native check'],
         design_ref='2 / C12',
     ),
+    'C01': dict(
+        level='other',
+        functions=[SEQ + f for f in ('sigma', 'deltaForm', 'delta', 'deltaMax', 'kappa')] + [SP + f for f in ('get_kappa', 'get_delta', 'get_deltaMax')],
+        lemmas=['count_partition', 'npos_nonneg', 'nneg_nonneg', 'nneut_nonneg', 'rmax_lower'],
+        native='c01',
+        explanation='proved for all sequences: get_kappa() = kappa_of(delta, deltaMax) - i.e. -1 exactly when delta-max is 0, else delta/deltaMax with a ratio in (1,1.1) reported as 1 - where '
+                    'delta is the Das-Pappu definition (C02) and deltaMax the maximum over the documented candidate family (C03), for both cache states. '
+                    'NOT provable by a contract: the upper bound kappa <= 1 (optimality of the heuristic family over all arrangements; false today, defect D1) - bounded exhaustive enumeration of '
+                    'charge patterns stands in, the 16 known violating patterns are listed as known findings',
+        assumptions=['range clause kappa in {-1} U [0,1]: bounded (every canonical charge pattern up to length 9 quick / 12 thorough + random sequences up to length 12); known finding D1'],
+        design_ref='2 / C01',
+    ),
+    'C03': dict(
+        level='other',
+        functions=[SEQ + f for f in ('countPos', 'countNeg', 'countNeut', 'FCR', 'delta', '__init__', 'deltaMax')] + [SP + 'get_deltaMax'],
+        lemmas=['count_partition', 'npos_nonneg', 'nneg_nonneg', 'nneut_nonneg', 'rmax_lower'],
+        native='c03',
+        explanation='proved for all sequences and both cache states: get_deltaMax() equals dmax_spec(n+, n-, n0) - a function of the three counts only - which is the running maximum of delta over '
+                    'the documented family (regime dispatch, tie rules, 17/18 boundary, every candidate string built as documented, loop invariants for the eight search loops). '
+                    'NOT yet under contract: the returned permutant (returnSeqDeltaMax=True path, __permutant_from_reduced_seq) - bounded native check stands in (every composition up to length 14/26, '
+                    'kappa-first histories on every canonical pattern up to length 8/10)',
+        assumptions=['tie rule of "minority block slid through the majority": on equal block lengths the code slides the neutral (resp. positive) block; the statement does not settle ties and the spec follows the code',
+                     'returned permutant (attainment clause): bounded native check only'],
+        design_ref='2 / C03',
+    ),
+    'C06': dict(
+        level='proof',
+        functions=[SEQ + f for f in ('__parse_group', '__init__', 'kappa', 'Omega', 'Omega_seq', 'kappa_X')] + [SP + f for f in ('get_kappa', 'get_Omega_sequence')],
+        lemmas=['rmax_lower'],
+        native='c06',
+        assumptions=['Omega() and kappa_X() are proved to return kappa_seq (the kappa of the statement, C01/C02/C03 specs) of the object built from a string that is, residue by residue, the documented recoding '
+                     '(P,E,D,K,R -> E else K; group 1 -> E, group 2 -> K, else G). Identities between entry points (Omega = kappa_X(PEDKR), kappa = kappa_X([E,D],[K,R]), group swap, complement) then follow from the '
+                     'recodings being pointwise equal / charge-inverted provided kappa_seq depends only on the first N characters (range-extensionality of the sum specs) and is inversion-invariant (C05): '
+                     'those two steps are argued, not mechanised; the identities themselves are checked natively',
+                     'group members are one-character strings (other members: native check)'],
+        design_ref='2 / C06',
+    ),
 }
 
 _BOUNDED_ONLY = ('deductive contracts for this property are not yet discharged in this build: the claim rests on the bounded native '
